@@ -354,6 +354,61 @@ func runC12(c *Ctx) {
 				c.R.Ok(rule, key, cfg, p.Pos(v.Pos()), "written only before the first Go")
 			}
 		}
+		// a variable captured by even ONE goroutine is shared with Do's own goroutine: Do must not write it
+		// (or a field of it) after the Go call that starts that goroutine and before Wait
+		closureOf := func(gc ssa.CallInstruction) *ssa.MakeClosure {
+			for _, a := range gc.Common().Args {
+				if mc, ok := a.(*ssa.MakeClosure); ok {
+					return mc
+				}
+			}
+			return nil
+		}
+		for _, b := range r.Do.Blocks {
+			for _, in := range b.Instrs {
+				st, ok := in.(*ssa.Store)
+				if !ok {
+					continue
+				}
+				root := st.Addr
+				for {
+					if fa, ok := root.(*ssa.FieldAddr); ok {
+						root = fa.X
+						continue
+					}
+					break
+				}
+				al, ok := root.(*ssa.Alloc)
+				if !ok {
+					continue
+				}
+				t := al.Type().(*types.Pointer).Elem()
+				if isSyncType(t) {
+					continue
+				}
+				if r.Wait != nil && core.Dominates(r.Wait.(ssa.Instruction), st) {
+					continue
+				}
+				for _, gc := range r.GoCalls {
+					mc := closureOf(gc)
+					if mc == nil {
+						continue
+					}
+					binds := false
+					for _, bv := range mc.Bindings {
+						if bv == ssa.Value(al) {
+							binds = true
+						}
+					}
+					if !binds {
+						continue
+					}
+					if len(core.ReachAvoiding(core.PointOf(gc.(ssa.Instruction)), func(x ssa.Instruction) bool { return x == ssa.Instruction(st) }, nil, nil)) > 0 {
+						c.R.Bad(rule, "captured/"+al.Comment+"/late-store", cfg, p.Pos(st.Pos()), "Do assigns "+al.Comment+" (captured by a goroutine it has already started) after the Go call: the goroutine reads it concurrently")
+					}
+				}
+			}
+		}
 		c.R.Count("variables shared by the goroutines of Do", n)
 		if n < 3 {
 			c.R.Unk(rule, "population", cfg, "", sprintf("%d shared captured variables found", n))
@@ -709,6 +764,7 @@ func runC12(c *Ctx) {
 
 	ruleSlab(c, p, "C12.slab")
 	ruleWaitGroupAdd(c, p, "C12.wg")
+	ruleNoStrayGoroutine(c, p, r, "C12.no-stray-goroutine")
 
 	// ---- C12.globals
 	rule = "C12.globals"
